@@ -54,11 +54,14 @@ func HDecodeOwnsDataArbitrary() {
 func HEncodePure() {
 	m := VGenMessage(1, vr.Param(0))
 	snap := VCloneMessage(m)
+	// frame condition: nothing reachable from the payload list (any field, exported or not) is written
+	tok := vr.FrameBegin(m.Payloads)
 	b1, err := m.Encode()
 	vr.Assert("c20.encode.noerr", err == nil)
 	if err != nil {
 		return
 	}
+	vr.Assert("c20.encode-writes-no-payload-state", vr.FrameUnchanged(tok))
 	vr.Assert("c20.msg-unchanged", vr.All(VEqHeader(snap.IKEHeader, m.IKEHeader), VEqPayloadsExact(snap.Payloads, m.Payloads)))
 	keep := append([]byte{}, b1...)
 	vr.Havoc(b1)
